@@ -52,8 +52,12 @@ E7_TEMPLATE = """{{
 def e7(text):
     pat = re.compile(r"(\w+)\s*\.variants\s*\.iter\(\)\s*\.enumerate\(\)\s*\.all\(\|\(i, v\)\| ([^)]+)\)")
     ms = list(pat.finditer(text))
+    if len(ms) == 0:
+        # the adapter chain is gone: the body is verified as written (loop-free bodies are decided exactly by Verus;
+        # a body with its own loop has no invariant from us and is reported undecided by the caller)
+        return text, []
     if len(ms) != 1:
-        raise Undecided("edit-mismatch", "E7: `.variants.iter().enumerate().all(|(i, v)| ..)` not found exactly once")
+        raise Undecided("edit-mismatch", "E7: `.variants.iter().enumerate().all(|(i, v)| ..)` found more than once")
     m = ms[0]
     new = E7_TEMPLATE.format(recv=m.group(1), pred=m.group(2).strip())
     return text[:m.start()] + new + text[m.end():], [(m.group(0), new)]
@@ -70,6 +74,7 @@ def build(tier):
     vhelp.typedef(vf, defs, "EnumDef", "struct")
     vf.add(SPEC)
     p = Piece(dart, dart.item("is_contiguous_enum", "fn"))
+    p.expect_loops(0)
     p.contract("    requires ty.variants@.len() <= 0x7fff_ffff_ffff_ffff,\n    ensures r == contiguous(ty),", ret_name="r")
     p.fn("E7", e7, why="iterator adapter chain desugared to a loop")
     vf.add_piece(p, expected="is_contiguous_enum")
